@@ -71,6 +71,11 @@ def _prove_stack(ctx, target, callee, dh):
             e.prove(name + ":call1-args", c1["geno"] is mgeno and c1["sel"] is msel and c1["rng"] is rng)
             e.prove(name + ":canary:copies-swapped", res.at(0, r1, j1) == mgeno.at(c1["ph"](r1, j1), msel.at(r1), j1),
                     expect="fail", timeout_ms=1500)
+        for ci, c_ in enumerate(calls):
+            xq = c_["xoprob"]
+            ok_x = isinstance(xq, EArr) and xq.ndim == 1
+            e.prove(name + ":call%d-crossover-probabilities-are-the-caller's" % ci,
+                    z3.And(_t(xq.shape[0]) == p.t, xq.at(j1) == xoprob.at(j1)) if ok_x else False)
         e.prove(name + ":entropy:draws-only-through-meiosis-on-rng", len(rng.log) == len(calls))
         return res
     with npmodel.patched_numpy():
